@@ -79,6 +79,20 @@ def fresh_seq(shape, name):
         if isinstance(sh, tuple) and sh[0] == "ext":
             f = z3.Function(f"{name}_e{len(path)}", *dom, ext_sort(sh[1])) if path else None
             return VExt(sh[1], f(*path) if path else z3.Const(name, ext_sort(sh[1])))
+        if isinstance(sh, tuple) and sh[0] == "tuple":
+            from pyvc.values import VTuple as _VT
+            items = []
+            for ci, comp in enumerate(sh[1]):
+                tag = f"{name}_t{ci}"
+                if comp == "str":
+                    f = z3.Function(f"{tag}_s{len(path)}", *dom, z3.StringSort()) if path else None
+                    items.append(VStr(f(*path) if path else z3.String(tag)))
+                elif comp == "int":
+                    f = z3.Function(f"{tag}_i{len(path)}", *dom, I) if path else None
+                    items.append(VInt(f(*path) if path else z3.Int(tag)))
+                else:
+                    raise Unsupported(f"tuple component shape {comp!r}")
+            return _VT(items)
         if isinstance(sh, tuple) and sh[0] == "list":
             if path:
                 lf = z3.Function(f"{name}_len{len(path)}", *dom, I)
@@ -321,14 +335,54 @@ class SymListMixin:
         return super().binop(st, op, a, b, node, inplace)
 
     # ------------------------------------------------------------- loop havoc --
+    PURE_BUILTINS = {"len", "min", "max", "sum", "any", "all", "enumerate", "zip", "sorted", "reversed", "list", "tuple", "range", "isinstance", "str", "int", "bool"}
+    MUTATORS = {"append", "extend", "insert", "pop", "clear", "sort", "reverse", "remove", "__setitem__", "__delitem__"}
+
+    def _maybe_mutated(self, body, name):
+        """may the loop body mutate the list bound to `name`?  (syntactic, conservative: a mutating method, a store through
+        it, or passing it to a call that is neither a pure builtin nor a function with a registered -- pure -- model)"""
+        for stmt in body:
+            for n in ast.walk(stmt):
+                if isinstance(n, ast.Call):
+                    f = n.func
+                    if isinstance(f, ast.Attribute) and isinstance(f.value, ast.Name) and f.value.id == name and f.attr in self.MUTATORS:
+                        return True
+                    passed = any(isinstance(a, ast.Name) and a.id == name for a in list(n.args) + [k.value for k in n.keywords])
+                    if passed:
+                        if isinstance(f, ast.Name) and f.id in self.PURE_BUILTINS:
+                            continue
+                        if isinstance(f, ast.Name) and self.module.imports.get(f.id) in self.reg.ext_models:
+                            continue
+                        return True
+                elif isinstance(n, (ast.Subscript, ast.Attribute)) and isinstance(n.ctx, (ast.Store, ast.Del)):
+                    b = n.value
+                    while isinstance(b, (ast.Subscript, ast.Attribute)):
+                        b = b.value
+                    if isinstance(b, ast.Name) and b.id == name:
+                        return True
+                elif isinstance(n, ast.AugAssign) and isinstance(n.target, ast.Name) and n.target.id == name:
+                    return True
+        return False
+
     def havoc_loop_state(self, st, body, spec, extra_names=()):
         declared = dict(getattr(spec, "havoc", ()) or ()) if spec is not None else {}
+        # symbolic lists that the body only reads keep their value (the engine's conservative rule would forget them)
+        keep = {}
+        for fr in st.frames:
+            for nm, v in fr.env.items():
+                if isinstance(v, VRef) and st.heap.get(v.ref) is not None and st.heap[v.ref].kind == "slist" \
+                        and nm not in declared and nm not in self.assigned_names(body) and not self._maybe_mutated(body, nm):
+                    keep[v.ref] = st.heap[v.ref]
         refs = {}
         for name in declared:
             v = st.lookup(name)
             if isinstance(v, VRef):
                 refs[name] = v.ref
         super().havoc_loop_state(st, body, spec, extra_names)
+        aliased = {v.ref for fr in st.frames for nm, v in fr.env.items() if isinstance(v, VRef) and (nm in declared or self._maybe_mutated(body, nm))}
+        for ref, obj in keep.items():
+            if ref not in aliased:
+                st.heap[ref] = obj
         for name, shape in declared.items():
             if name not in refs:
                 continue
